@@ -139,6 +139,7 @@ type Unit struct {
 	curFuncKey    string
 	specDepth     int
 	inSpec        bool
+	evalOwner     string // contract key of the clause being evaluated
 	oldState      *State
 	specBind      map[*types.Var]Val
 	oldBind       map[*types.Var]Val
